@@ -1092,7 +1092,9 @@ __attribute__((noinline)) static int note(int x) { return x + 1; }
 static void h(int s) { int st; (void)s; if (waitpid(-1, &st, WNOHANG) > 0) reaped += note(0); }
 __attribute__((noinline)) static int spawn(void) { pid_t pid = vfork(); if (!pid) _exit(3); return pid > 0; }
 __attribute__((noinline)) static int after(int x) { return x + (int)(getppid() > 0); }
-int main(void) { signal(SIGCHLD, h); int r = spawn(); r = after(r) - 1; printf("r=%d reaped=%d\n", r, reaped); return 0; }
+/* (SIGCHLD is sent a little after the parent is woken up: usually before vfork's exit hook has run, sometimes later) */
+int main(void) { signal(SIGCHLD, h); int r = spawn(); r = after(r) - 1; for (int i = 0; i < 3000 && !reaped; i++) usleep(1000);
+	printf("r=%d reaped=%d\n", r, reaped); return 0; }
 """
 
 E2E_WITNESS_VFORK_THREAD = r"""
@@ -1354,7 +1356,7 @@ def judge_vff(obs, opt):
     for t, e in rp.items():
         probs.append(("calls", "under %s replay shows a task with calls %s that the filter should not let through"
                       % (" ".join(opt), [n for n, _ in e][:10])))
-    mt = re.search(r"stopped tracing with remaining functions\n=+\n((?:task: \d+\n(?:\[\d+\] .*\n?)*\n?)+)", obs.get("replay_text", ""))
+    mt = re.search(r"stopped tracing with remaining functions\n=+\n((?:task: \d+\n(?:\[\d+\] .*\n?)*\n?)+)", obs.get("replay_tail", ""))
     if mt:
         main_tids = [t for t, e in obs["replay"].items() if any(n == "main" for n, _ in e)]
         for t in re.findall(r"task: (\d+)", mt.group(1)):
@@ -1440,6 +1442,7 @@ def run_e2e_one(ctx, objdir, wd, name, src, lang, flags, timeout_native=10, time
     obs["replay_rc"] = rrc
     obs["replay"] = parse_replay(rout)
     obs["replay_text"] = rout[:6000]
+    obs["replay_tail"] = rout[-1500:]
     drc, dout, _ = sh(["timeout", "30", uft, "dump", "--no-pager", "-d", data], timeout=40, cwd=wd)
     obs["dump"] = parse_dump(dout)
     obs["dump_seq"] = parse_dump_seq(dout)
@@ -1696,7 +1699,7 @@ def run_e2e(ctx, objdir):
             mains = [[n for n, _ in e if n in ("main", "spawn")] for e in rp_.values() if any(n == "main" for n, _ in e)]
             if mains != [["main", "spawn", "spawn"]]:
                 probs.append(("calls", "the main thread called spawn() twice; replay shows %s for the task(s) with main()" % mains))
-            if "stopped tracing with remaining functions" in wres[w["name"]].get("replay_text", ""):
+            if "stopped tracing with remaining functions" in wres[w["name"]].get("replay_tail", ""):
                 probs.append(("replay", "replay ends with `uftrace stopped tracing with remaining functions`"))
             if sum(1 for e in rp_.values() for n, _ in e if n == "th") != 1:
                 probs.append(("calls", "the thread function th() is not shown exactly once"))
